@@ -12,9 +12,11 @@ TRUSTED = []
 def run(ctx, intensify=False):
     res = PropResult()
     outs = ctx.pmap(lo.shard, [(ctx.seed * 1000 + i, ctx.n(4, 40) * (2 if intensify else 1), ctx.n(8, 12)) for i in range(ctx.nproc)])
-    steps = systems = 0
-    methods, hashes = {}, set()
+    steps = systems = corr = 0
+    methods, hashes, dis = {}, set(), []
     for o in outs:
+        dis += o["disagreements"]
+        corr += o["corr"]
         res.violations += o["violations"]
         steps += o["steps"]
         systems += o["systems"]
@@ -22,7 +24,7 @@ def run(ctx, intensify=False):
         res.samples += o["samples"]
         for k, v in o["methods"].items():
             methods[k] = methods.get(k, 0) + v
-    res.suites.append({"name": "K-links", "cases": systems, "observations": steps, "disagreements": [], "inconclusive": 0,
+    res.suites.append({"name": "K-links", "cases": corr, "observations": steps, "disagreements": dis, "inconclusive": 0,
                        "distribution": {"operations": methods}})
     res.evaluations = steps
     res.distinct_nontrivial = len(hashes)
